@@ -1,7 +1,9 @@
 import Properties.C07
+import Properties.Full
 #print axioms Hive.C07.runInv
 #print axioms Hive.C07.reachable
 #print axioms Hive.C07.concrete_traverse
 #print axioms Hive.C07.pickup_at_origin
 #print axioms Hive.C07.dropoff_at_destination
 #print axioms Hive.C07.trip_starts_at_origin
+#print axioms Hive.Full.C07
